@@ -78,6 +78,22 @@ func genC05(t *rapid.T) KeyCase {
 		}
 		m.Axes = append(m.Axes, a)
 	}
+	// a second event node of the device (touchpad) may report the same axis codes with its own ranges
+	if rapid.IntRange(0, 2).Draw(t, "touchpad") == 0 {
+		m.AnalogSubs = append(m.AnalogSubs, AnalogSub{Sub: "Touchpad", Default: floatp(0)})
+		for _, a := range append([]AxisDef{}, m.Axes...) {
+			if a.Type != "cc" && a.Type != "pitch_bend" {
+				continue
+			}
+			rg := rapid.SampledFrom(append(ranges, axisRange{0, 1919}, axisRange{0, 941})).Draw(t, "touchpadRange")
+			b := a
+			b.Sub, b.Min, b.Max, b.Center = "Touchpad", rg.Min, rg.Max, nil
+			if rg.Min == 0 && rapid.Bool().Draw(t, "touchpadCenter") {
+				b.Center = boolp(true)
+			}
+			m.Axes = append(m.Axes, b)
+		}
+	}
 	d.Mappings = []MappingDef{m}
 
 	var steps []Step
@@ -111,7 +127,7 @@ func genC05(t *rapid.T) KeyCase {
 			default:
 				v = rapid.Int64Range(int64(a.Min), int64(a.Max)).Draw(t, "raw")
 			}
-			steps = append(steps, Step{T: "abs", Sub: "", Code: a.Code, Val: int32(v)})
+			steps = append(steps, Step{T: "abs", Sub: a.Sub, Code: a.Code, Val: int32(v)})
 		}
 	}
 	return KeyCase{D: d, Steps: steps, NoLogs: rapid.Bool().Draw(t, "nologs")}
